@@ -261,6 +261,54 @@ impl World {
         }).collect()
     }
 
+    /// A variant of pool message `m` (see `Action::Variant`). Returns its pool index.
+    pub fn variant(&mut self, m: usize, kind: u8, arg: u8) -> Option<usize> {
+        let orig = self.pool[m].msg.clone();
+        let byz = self.byz_ids();
+        let inner = chonky(&orig).clone();
+        let outsider = gen::val_keys()[gen::POOL - 1].clone();
+        let review = |v: v2::View, f: &dyn Fn(v2::View) -> v2::View| f(v);
+        let msg: Msg = match kind % 6 {
+            0 => self.sign_as(*byz.get(arg as usize % byz.len().max(1))?, inner),
+            1 => outsider.sign_msg(ConsensusMsg::V2(inner)),
+            2 => {
+                let mut x = orig.clone();
+                let other = self.pool[(m + 1 + arg as usize) % self.pool.len()].msg.sig.clone();
+                if other == x.sig {
+                    return None;
+                }
+                x.sig = other;
+                x
+            }
+            k => {
+                // votes re-issued by a Byzantine validator for another chain / epoch / view
+                let b = *byz.first()?;
+                let foreign = self.committee.foreign_genesis().hash();
+                let f = |mut v: v2::View| -> v2::View {
+                    match k {
+                        3 => v.genesis = foreign,
+                        4 => v.epoch = validator::EpochNumber(v.epoch.0 + 1),
+                        _ => v.number = validator::ViewNumber((v.number.0 as i64 + (arg as i64 - 2)).max(0) as u64),
+                    }
+                    v
+                };
+                let inner = match inner {
+                    v2::ChonkyMsg::ReplicaCommit(mut c) => {
+                        c.view = review(c.view, &f);
+                        v2::ChonkyMsg::ReplicaCommit(c)
+                    }
+                    v2::ChonkyMsg::ReplicaTimeout(mut t) => {
+                        t.view = review(t.view, &f);
+                        v2::ChonkyMsg::ReplicaTimeout(t)
+                    }
+                    _ => return None,
+                };
+                self.sign_as(b, inner)
+            }
+        };
+        Some(self.add_to_pool(msg, true))
+    }
+
     /// Validly signed commit / timeout votes of a Byzantine validator for many distinct future views (C16).
     pub fn flood(&mut self, byz_sel: usize, timeouts: bool, from_view: u64, count: u64) -> Vec<usize> {
         let ids = self.byz_ids();
